@@ -131,6 +131,24 @@ def included_repo_units(path):
     return inc
 
 
+def included_repo_units_pp(h, defs):
+    """the same, asked from the preprocessor (honours #ifdef): gcc -MM with the harness's defines"""
+    cmd = ["gcc", "-MM", "-w", "-DVP_REPLAY", "-D" + GUARD, "-DHAVE_CONFIG_H", "-DHWLOC_INSIDE_LIBHWLOC", '-DHWLOC_PLUGINS_PATH="/nonexistent"', '-DRUNSTATEDIR="/nonexistent"'] + cfg_includes()
+    cmd += ["-D%s=%s" % (k, v) for k, v in defs.items()] + [src_path(h)]
+    try:
+        rc, out, _, _, _ = run(cmd, timeout=120)
+    except Exception:
+        return None
+    if rc != 0 or not out:
+        return None
+    inc = set()
+    for tok in out.replace("\\\n", " ").split():
+        tok = tok.strip()
+        if tok.endswith(".c") and os.path.abspath(tok).startswith(os.path.abspath(REPO) + os.sep):
+            inc.add(os.path.relpath(os.path.abspath(tok), os.path.abspath(REPO)))
+    return inc
+
+
 def build_goto(h, tier, wd, log):
     defs = defines_for(h, tier)
     cmd = ["goto-cc", "-DVP_CBMC", "-D" + GUARD, "-DHAVE_CONFIG_H", "-DHWLOC_INSIDE_LIBHWLOC"] + cfg_includes()
@@ -165,7 +183,7 @@ def cbmc_cmd(h, tier, gb):
     cmd = ["cbmc", gb, "--function", h["entry"], "--unwind", str(tier_opt(h, tier, "unwind", 2))]
     k = int(defines_for(h, tier).get("VP_MEM_K", 128)) + 1
     big = int(defines_for(h, tier).get("VP_MEM_BIG", 0)) // 8 + 1
-    uws = {"memcpy.0": k, "memcpy.1": k, "memcpy.2": big, "memmove.0": k, "memmove.1": k, "memmove.2": k, "memmove.3": k, "memmove.4": big, "memmove.5": big, "memset.0": k, "memset.1": k, "memset.2": big, "realloc.0": int(defines_for(h, tier).get("VP_REALLOC_K", 64)) + 1}
+    uws = {"memcpy.0": k, "memcpy.1": k, "memcpy.2": big, "memmove.0": k, "memmove.1": k, "memmove.2": k, "memmove.3": k, "memmove.4": big, "memmove.5": big, "memset.0": k, "memset.1": k, "memset.2": big, "realloc.0": int(defines_for(h, tier).get("VP_REALLOC_K", 0)) + 1}
     for i in range(10):
         uws["vsnprintf.%d" % i] = 48
         uws["vp_put_unsigned.%d" % i] = 26
@@ -290,7 +308,9 @@ def extract_inputs_json(trace_path, prop):
 def native_build(h, tier, wd, log):
     defs = defines_for(h, tier)
     exe = os.path.join(wd, "replay.bin")
-    inc_units = included_repo_units(src_path(h))
+    inc_units = included_repo_units_pp(h, defs)
+    if inc_units is None:
+        inc_units = included_repo_units(src_path(h))
     units = [u for u in NATIVE_UNITS if u not in inc_units and os.path.exists(os.path.join(REPO, u))]
     for u in h.get("units", []):
         if u not in units and u not in inc_units:
@@ -599,6 +619,20 @@ def main():
                 pid, r["harness"], r.get("verdict"), r.get("wall_s", 0), r.get("symex_s"), r.get("solver_s"), r.get("obligations"),
                 r.get("witnesses_reached"), r.get("witnesses"), ("-- " + str(r.get("error"))[:300]) if r.get("error") else ""))
             sys.stdout.flush()
+    # thorough tier, graceful depth: a core harness whose thorough bound ends without verdict for lack of resources
+    # (timeout, memory) is decided at its quick bound instead; the evidence records both (the deeper bound as "not reached").
+    # A violation, a vacuous witness or an unconfirmed counterexample is never downgraded this way.
+    if tier == "thorough":
+        for idx, r in enumerate(list(recs)):
+            h = next((x for x in hs if x["name"] == r["harness"]), None)
+            resource_limited = r.get("verdict") == "inconclusive" and re.search(r"timeout|out of memory|ran out of memory|left undecided", str(r.get("error", "")))
+            if h is not None and h.get("core", True) and resource_limited and "quick" in h["tiers"] and h["tiers"]["quick"] != h["tiers"]["thorough"]:
+                r2 = run_harness(pid, h, "quick", keep)
+                r2["thorough_bound_not_reached"] = dict(bounds=r.get("bounds"), defines=r.get("defines"), reason=str(r.get("error"))[:300], wall_s=r.get("wall_s"))
+                r2["harness"] = r["harness"]
+                recs[idx] = r2
+                print("[%s] %-34s %-12s (thorough bound without verdict: %s; decided at the quick bound instead)" % (pid, r2["harness"], r2.get("verdict"), str(r.get("error"))[:80]))
+                sys.stdout.flush()
     # known findings protocol: a violation whose harness carries a 'known' entry is re-run with the
     # exclusion macro; the finding is printed as KNOWN-FINDING when the restricted run passes
     violations, known_hit, inconclusive, errors = [], [], [], []
